@@ -42,7 +42,7 @@ ASSUMPTIONS = [
 ]
 SHRINK_FIELDS = ["ops"]
 
-IDS = ["ep01", "ep02", "ep03", "ep04", "ep05", "ñ→6", "z.7"]
+IDS = ["ep01", "ep02", "ep03", "ep04", "ep05", "ñ→6", "z.7", "ep01→ep02", "ep02→ep03"]
 
 
 def _items(r) -> List[List[Any]]:
@@ -161,10 +161,16 @@ def _api(p: Dict[str, Any], stats: Dict[str, int], shuffled: bool, gate_off: boo
                         ok_ids = sorted([(i, s) for (i, s) in items if s >= thr], key=lambda t: (-t[1], t[0]))[:topk]
                         allowed = {i for i, _ in ok_ids}
                         changed = [kk for kk, rec in _edges(state).items() if before.get(kk) != rec]
+                        allowed_keys = {"%s→%s" % ((a, b) if a <= b else (b, a)): (a, b) for a in allowed for b in allowed}
                         for kk in changed:
                             rec = _edges(state)[kk]
                             if rec["src"] not in allowed or rec["dst"] not in allowed:
-                                bad("updated-pair-outside-topk", "%s: edge %s changed but top-k above threshold is %s" % (where, kk, sorted(allowed)))
+                                if kk in allowed_keys and "→" in "".join(allowed_keys[kk]):
+                                    # two different unordered pairs, one key: the id itself contains the separator
+                                    bad("key-collision:separator-in-id", "%s: pair %s was booked on the edge record of pair (%s, %s) - both spell %r" % (
+                                        where, allowed_keys[kk], rec["src"], rec["dst"], kk))
+                                else:
+                                    bad("updated-pair-outside-topk", "%s: edge %s changed but top-k above threshold is %s" % (where, kk, sorted(allowed)))
                         if len(changed) > cap:
                             bad("pair-cap-exceeded", "%s: %d edges changed, cap %d" % (where, len(changed), cap))
                         if changed:
